@@ -26,6 +26,7 @@
 //!   cr  CpuContext::registers() names        cv  CpuContext::valid_registers(validity) names, sorted (P if it panicked)
 //!   sz  register_size()                      fm  format_register(name) (P if it panicked; B-relative like ga)
 //!   mg  MinidumpContext::get_register(name) with the case's validity: value / B / N / P
+//!   mga MinidumpContext::get_register_always(name) after the set: value / B / P
 //!   sa / ia  1 iff get_stack_pointer / get_instruction_pointer equals get_register_always(<sp / ip register name>)
 //!            widened to u64, both before and after the set
 //!   | RG=<T::REGISTERS> | spm=<memoize(sp name)> | ipm=<memoize(ip name)> | sm=<memoize of each validity member>
@@ -144,7 +145,7 @@ where
     let ia = ia_before && Some(ip) == named(&ctx, ctx.instruction_pointer_register_name());
 
     let common = format!(
-        "mz={};st={};ga={};gA={};gr={};iv={};ch={};sp={};ip={};spn={};ipn={};rn={};vn={};cr={};cv={};sz={};fm={};mg={};sa={};ia={}",
+        "mz={};st={};ga={};gA={};gr={};iv={};ch={};sp={};ip={};spn={};ipn={};rn={};vn={};cr={};cv={};sz={};fm={};mg={};mga={};sa={};ia={}",
         mz.unwrap_or("N"),
         st as u8,
         show(ga, before_named),
@@ -163,6 +164,7 @@ where
         mdc.register_size(),
         fm,
         opt_show(mg),
+        show(guard(|| mdc.get_register_always(name)), before_named),
         sa as u8,
         ia as u8,
     );
